@@ -64,6 +64,30 @@ def DV.stepLine (st : Option DV) (toks : List String) : Option DV × String :=
     match i.toNat?, v.toInt? with
     | some i, some v => if i < s.ins.length then let s' := s.step (.set i v); (some s', s'.show) else (st, "bad-op")
     | _, _ => (st, "bad-op")
+  -- the other write paths of an input variable are `Compute` with a different generator: `Compute(cur ↦ cur + δ)`,
+  -- `DefaultTo(v)` (writes only over the zero value), `ToggleValue(v)` = `Set(v)` and its reset function = `Set(zero)`
+  | some s, ["compute", i, d] =>
+    match i.toNat?, d.toInt? with
+    | some i, some d =>
+      match s.ins[i]? with
+      | some cur => let s' := s.step (.set i (cur + d)); (some s', s'.show)
+      | none => (st, "bad-op")
+    | _, _ => (st, "bad-op")
+  | some s, ["default", i, v] =>
+    match i.toNat?, v.toInt? with
+    | some i, some v =>
+      match s.ins[i]? with
+      | some cur => let s' := if cur == 0 then s.step (.set i v) else s; (some s', s'.show)
+      | none => (st, "bad-op")
+    | _, _ => (st, "bad-op")
+  | some s, ["toggle", i, v] =>
+    match i.toNat?, v.toInt? with
+    | some i, some v => if i < s.ins.length then let s' := s.step (.set i v); (some s', s'.show) else (st, "bad-op")
+    | _, _ => (st, "bad-op")
+  | some s, ["reset", i] =>
+    match i.toNat? with
+    | some i => if i < s.ins.length then let s' := s.step (.set i 0); (some s', s'.show) else (st, "bad-op")
+    | none => (st, "bad-op")
   | some s, ["unsub"] => let s' := s.step .unsub; (some s', s'.show)
   | some s, ["teardown"] =>
     match s.target with
